@@ -397,10 +397,31 @@ def rule_epoch(rep, funcs):
                 an = f.stmts.get(f.strip(a))
                 if an is not None and an["k"] == "DeclRefExpr" and epoch.get(an.get("declId")) is not None and epoch[an["declId"]] != epoch[o["declId"]]:
                     bad.append((sid, o["name"], epoch[o["declId"]], an["name"], epoch[an["declId"]], last(n.get("callee"))))
+        # convert<to, from>(K, F0, F1, s): F0 is the deformation gradient of the beginning of the step, F1 and the Cauchy stress s belong to
+        # the same instant (both of the beginning for a prediction operator, both of the end after an integration)
+        for sid, n in f.stmts.items():
+            if n["k"] != "CallExpr" or not re.search(r"(^|::)convert$", (n.get("callee") or "").split("<")[0].split("(")[0]) or len(n.get("args") or []) != 4:
+                continue
+            es = []
+            for a in n["args"][1:]:
+                an = f.stmts.get(f.strip(a))
+                es.append((an.get("name"), epoch.get(an.get("declId"))) if an is not None and an["k"] == "DeclRefExpr" else (None, None))
+            if any(e is None for _n, e in es):
+                continue
+            ncalls += 1
+            (n0, e0), (n1, e1), (n2, e2) = es
+            if e0 != 0 or e1 != e2:
+                bad.append((sid, "convert", 0, "%s, %s, %s" % (n0, n1, n2), 1, "convert"))
         rep.count("handler calls examined for epoch agreement", ncalls)
         if bad:
             for sid, on, oe, an, ae, cal in bad:
                 key = "EPOCH-AGREEMENT@%s#%s.%s(%s)" % (f.qname, on, cal, an)
+                if on == "convert":
+                    if not any(v["key"] == key for v in rep.violations):
+                        rep.fail(key, "%s: %s calls convert(., %s): the second argument must be the deformation gradient of the beginning of the "
+                                 "time step and the third and fourth (deformation gradient and Cauchy stress) must belong to the same instant, as "
+                                 "in the sibling branches [%s]" % (rel(f.short_loc(sid)), f.qname, an, hyp(f)))
+                    continue
                 if not any(v["key"] == key for v in rep.violations):
                     rep.fail(key, "%s: %s calls %s.%s with '%s': '%s' is built from the %s of the time step and '%s' holds a value of its %s - "
                              "the sibling branches pair handler and argument of the same epoch; the converted quantity is not the one "
@@ -510,6 +531,33 @@ def rule_writeback(rep, funcs):
             return ((tuple(sorted(fx.items(), key=repr)), after),)
         forward(f, (((), False),), el, ed)
         rep.count("write-back sites after the inner integration", nw[0])
+        # the two successful statuses are treated alike: 0 (valid results, smaller time step advised) reaches the same write-back sites as 1
+        reach = {}
+        for v in (0, 1):
+            got = set()
+
+            def el2(st, b, i, e, got=got):
+                if "s" not in e:
+                    return (st,)
+                facts, after = st
+                if e["s"] == isid:
+                    fx = dict(facts)
+                    fx.update({("status", -1): False, ("status", 0): v == 0, ("status", 1): v == 1})
+                    return ((tuple(sorted(fx.items(), key=repr)), True),)
+                if after and write_of(e["s"]):
+                    got.add(e["s"])
+                return (st,)
+            forward(f, (((), False),), el2, ed)
+            reach[v] = got
+        if reach[0] != reach[1]:
+            only = sorted(reach[1] - reach[0]) or sorted(reach[0] - reach[1])
+            key = "STATUS-0-LIKE-1@%s" % f.qname
+            if not any(v_["key"] == key for v_ in rep.violations):
+                rep.fail(key, "%s: %s writes back %s when the inner integration returns 1 but not when it returns 0 (valid results, smaller time "
+                         "step advised) - or conversely: after such a call the caller's stress and tangent operator are not those of the "
+                         "requested measure [%s]" % (rel(f.short_loc(only[0])), f.qname, write_of(only[0]), hyp(f)))
+        else:
+            rep.ok("%s: statuses 0 and 1 reach the same %d write-back sites [%s]" % (f.qname, len(reach[1]), hyp(f)), sample=(hyp(f) == "TRIDIMENSIONAL"))
         if bad:
             for p, sid in sorted(bad.items()):
                 key = "WRITE-BACK-ON-FAILURE@%s#%s" % (f.qname, p)
